@@ -7,15 +7,15 @@ use crate::prng::Prng;
 pub const META: Meta = Meta {
     id: "C01",
     level: "exploration",
-    rule: "Cases = (program, signal list, scripted device) drawn by the grammar-directed generator (profile `flow`: let/loop/repeat/while nests to depth 4, bounds that are constants, <=0, variables, outer counters or device outputs; shadowing lets; bits(); no random, no hazards), printed to text; the crate's whole row stream (line, input values, expected values, end of iteration) is compared as a sequence with the stream prescribed by the reference interpreter for the same device answers. Distinct = by hash of (source text, signals, device script). Non-trivial = reference prescribes >= 2 rows, executes >= 1 loop/while, and at least one of {loop bound <= 0, nesting depth >= 2, shadowing let, let inside a loop, device-derived value in an expression, while with zero iterations}.",
+    rule: "Cases = (program, signal list, scripted device) drawn by the grammar-directed generator (profile `flow`: let/loop/repeat/while nests to depth 4, bounds that are constants, <=0, variables, outer counters or device outputs; shadowing lets; bits(); no random, no hazards), printed to text; the crate's whole row stream (line, input values, expected values, end of iteration) is compared as a sequence with the stream prescribed by the reference interpreter for the same device answers. The first 100 338 (quick) / 4 429 535 (thorough) case indices are NOT sampled: they enumerate completely the program space `let x=0; row; STMT; row; let x=x+1; row` with STMT ::= row | let x=x+1 | let x=7 | repeat(B) row | loop(c,B) BLOCK | loop(x,B) BLOCK (shadowing) | let w=K; while(w) BLOCK let w=w-1, nesting depth <= 2, blocks of <= 2 statements (<= 1 at depth 2 in quick), B in {-1,0,1,2}, K in {0,1,2}; for these vars() after every row is compared too. Distinct = by hash of (source text, signals, device script). Non-trivial = reference prescribes >= 2 rows, executes >= 1 loop/while, and at least one of {loop bound <= 0, nesting depth >= 2, shadowing let, let inside a loop, device-derived value in an expression, while with zero iterations}.",
     assumptions: &[
         "reference interpreter refint (written from the property text) is the trusted base",
         "scripted device answers are a pure function of (call index, signal, input history)",
         "programs whose let rebinds the counter of its own loop are out of the statement's domain",
         "programs the reference cannot finish in 400 rows / 6000 steps are inconclusive, not counted",
     ],
-    quick_cases: 150000,
-    thorough_cases: 3000000,
+    quick_cases: 100_338 + 150_000,
+    thorough_cases: 4_429_535 + 2_000_000,
     floor: 500,
 };
 
@@ -35,6 +35,10 @@ pub fn run(case_seed: u64, acc: &mut Acc) {
 }
 
 pub fn check_case(case: &Case, case_seed: u64, variant: &str, acc: &mut Acc) {
+    check_case_ext(case, case_seed, variant, acc, false)
+}
+
+pub fn check_case_ext(case: &Case, case_seed: u64, variant: &str, acc: &mut Acc, with_vars: bool) {
     acc.cases += 1;
     let Some(ran) = standard_run(case, acc, None) else {
         return;
@@ -43,7 +47,7 @@ pub fn check_case(case: &Case, case_seed: u64, variant: &str, acc: &mut Acc) {
     acc.distinct.insert(h);
     let f = first_some(vec![
         accepted(&ran.real),
-        diff_items(&ran.pr, &ran.rf, &ran.real, Aspects::rows()),
+        diff_items(&ran.pr, &ran.rf, &ran.real, if with_vars { Aspects { vars: true, ..Aspects::rows() } } else { Aspects::rows() }),
     ]);
     if let Some(f) = f {
         acc.violation(case_seed, variant, f, case_json(case, &ran.pr));
@@ -163,4 +167,138 @@ pub fn exhaustive(tier: &str, acc: &mut Acc) -> Value {
     }
     json!({"exhaustive_small_space_programs": n, "violations_in_it": acc.violation_count - before,
            "space": "let v=0; row; <loop nest depth<=2 with bounds in {-1,0,1,2}, bodies of <=2 atoms from {row(i,v), let v=v+i, let v=5} | repeat>; [let v=v+1;] row"})
+}
+
+
+// ------------------------------------------------------------------------------------------
+// Enumerated program space, addressed by case index (so that it is spread over the shards).
+//
+//   program  ::= let x = 0; row; STMT(0); row; let x = x + 1; row
+//   STMT(d)  ::= row | let x = x + 1 | let x = 7 | repeat(B) row                     (7 leaves)
+//              | loop(c_d, B) BLOCK(d+1) end loop | loop(x, B) BLOCK(d+1) end loop   (d < 2; the second shadows x)
+//              | let w_d = K; while(w_d) BLOCK(d+1) let w_d = w_d - 1; end while     (d < 2; K in {0,1,2})
+//   BLOCK(d) ::= sequences of 0..=L_d statements STMT(d)        L_1 = 2, L_2 = 1 (quick) / 2 (thorough)
+//   B in {-1, 0, 1, 2};   row = (x) (innermost counter, or 0)
+//
+// Sizes: quick 100 338 programs, thorough 4 429 535 programs.
+
+const LEAVES: u64 = 7;
+
+fn blocks(s: u64, max_len: u32) -> u64 {
+    (0..=max_len).map(|l| s.pow(l)).sum()
+}
+
+fn stmt_count(d: usize, len2: u32) -> u64 {
+    if d >= 2 {
+        LEAVES
+    } else {
+        let b = blocks(stmt_count(d + 1, len2), if d + 1 == 2 { len2 } else { 2 });
+        LEAVES + 8 * b + 3 * b
+    }
+}
+
+pub fn enum_size(thorough: bool) -> u64 {
+    stmt_count(0, if thorough { 2 } else { 1 })
+}
+
+struct Dec {
+    len2: u32,
+    next_row: usize,
+}
+
+impl Dec {
+    fn row(&mut self, counter: Option<&str>) -> Item {
+        self.next_row += 1;
+        let c = match counter {
+            Some(c) => Expr::Ident(c.to_string()),
+            None => Expr::Num(0, Radix::Dec),
+        };
+        Item::Row(self.next_row, vec![Entry::Paren(Expr::Ident("x".into())), Entry::Paren(c)])
+    }
+    fn block(&mut self, d: usize, mut code: u64, counter: Option<&str>) -> Vec<Item> {
+        let s = stmt_count(d, self.len2);
+        let max_len = if d == 2 { self.len2 } else { 2 };
+        let mut len = 0;
+        loop {
+            let n = s.pow(len);
+            if code < n {
+                break;
+            }
+            code -= n;
+            len += 1;
+            debug_assert!(len <= max_len);
+        }
+        let mut out = vec![];
+        for _ in 0..len {
+            out.extend(self.stmt(d, code % s, counter));
+            code /= s;
+        }
+        out
+    }
+    fn stmt(&mut self, d: usize, code: u64, counter: Option<&str>) -> Vec<Item> {
+        let inc = |n: &str, by: i64| {
+            Item::Let(n.into(), Expr::Bin(if by > 0 { BinOp::Add } else { BinOp::Sub }, Box::new(Expr::Ident(n.into())), Box::new(Expr::Num(1, Radix::Dec))))
+        };
+        let bound = |k: u64| match k {
+            0 => Expr::Un(UnOp::Neg, Box::new(Expr::Num(1, Radix::Dec))),
+            k => Expr::Num(k as i64 - 1, Radix::Dec),
+        };
+        match code {
+            0 => vec![self.row(counter)],
+            1 => vec![inc("x", 1)],
+            2 => vec![Item::Let("x".into(), Expr::Num(7, Radix::Dec))],
+            3..=6 => {
+                self.next_row += 1;
+                vec![Item::Repeat(self.next_row, bound(code - 3), vec![Entry::Paren(Expr::Ident("n".into())), Entry::Paren(Expr::Ident("x".into()))])]
+            }
+            _ => {
+                let b = blocks(stmt_count(d + 1, self.len2), if d + 1 == 2 { self.len2 } else { 2 });
+                let c = code - LEAVES;
+                let kind = c / b;
+                let inner = c % b;
+                if kind < 8 {
+                    let shadow = kind >= 4;
+                    let name = if shadow { "x".to_string() } else { ["i", "j"][d].to_string() };
+                    let body = self.block(d + 1, inner, Some(&name));
+                    vec![Item::Loop(name, bound(kind % 4), body)]
+                } else {
+                    let w = ["w0", "w1"][d];
+                    let k = (kind - 8) as i64;
+                    let mut body = self.block(d + 1, inner, counter);
+                    body.push(inc(w, -1));
+                    vec![Item::Let(w.into(), Expr::Num(k, Radix::Dec)), Item::While(Expr::Ident(w.into()), body)]
+                }
+            }
+        }
+    }
+}
+
+pub fn enum_case(index: u64, thorough: bool) -> Case {
+    let mut d = Dec { len2: if thorough { 2 } else { 1 }, next_row: 0 };
+    let mut items = vec![Item::Let("x".into(), Expr::Num(0, Radix::Dec)), d.row(None)];
+    items.extend(d.stmt(0, index, None));
+    items.push(d.row(None));
+    items.push(Item::Let("x".into(), Expr::Bin(BinOp::Add, Box::new(Expr::Ident("x".into())), Box::new(Expr::Num(1, Radix::Dec)))));
+    items.push(d.row(None));
+    Case {
+        program: Program { header: vec!["A".into(), "Q".into()], items },
+        signals: vec![
+            Sig { name: "A".into(), bits: 8, kind: SigKind::In(InVal::V(0)) },
+            Sig { name: "Q".into(), bits: 64, kind: SigKind::Out },
+        ],
+        script: Script { layout: vec![1], values: ValueFn::Small { salt: 7, modulus: 3 }, faults: vec![], override_write: index % 2 == 0 },
+        layout_opts: crate::pp::Layout::plain(),
+        rng_seed: 1,
+    }
+}
+
+pub fn run_indexed(index: u64, case_seed: u64, acc: &mut Acc) {
+    let n = enum_size(acc.thorough);
+    if index < n {
+        let case = enum_case(index, acc.thorough);
+        acc.event("enumerated_programs", 1);
+        check_case_ext(&case, index, "enum", acc, true);
+    } else {
+        run(case_seed, acc);
+    }
 }
